@@ -757,6 +757,61 @@ func (g *nilGen) derefUse(x string, t int) string {
 	return ""
 }
 
+func comparableType(t int) bool {
+	switch gTypes[t].Name {
+	case "*int", "**int", "chan *int", "any", "error", "unsafe.Pointer", "*[4]int", "*T":
+		return true
+	}
+	return false
+}
+
+// cmpReturns ends the function with a comparison between two non-constant pointer-like values, one of them
+// provably non-nil, and returns the OTHER operand on one side and a non-nil value on the other side.
+// (x == k says nothing about x on the else edge; on the then edge x is as non-nil as k.)
+func (g *nilGen) cmpReturns() {
+	f := g.funcs[g.cur]
+	r := g.r
+	t := f.Results[0]
+	x, _ := g.pickVar(t)
+	for _, v := range g.varsOf(t) {
+		if strings.HasPrefix(v, "p") && r.Chance(70) {
+			x = v
+			break
+		}
+	}
+	lv := g.leaves(t)[1:] // non-nil leaves (for interfaces also a typed nil inside a non-nil interface)
+	k := g.fresh()
+	g.line("var %s %s = %s", k, g.tn(t), lv[r.Intn(len(lv))])
+	rest := func(first string) string {
+		es := []string{first}
+		for _, rt := range f.Results[1:] {
+			if v, ok := g.pickVar(rt); ok {
+				es = append(es, v)
+			} else if gTypes[rt].PtrLike {
+				es = append(es, "nil")
+			} else {
+				es = append(es, map[string]string{"int": "0", "bool": "false", "uintptr": "0"}[gTypes[rt].Name])
+			}
+		}
+		return strings.Join(es, ", ")
+	}
+	a, b := x, k
+	if r.Bool() {
+		a, b = k, x
+	}
+	if r.Chance(65) {
+		g.line("if %s == %s {", a, b)
+		g.line("\treturn %s", rest(lv[r.Intn(len(lv))]))
+		g.line("}")
+		g.line("return %s", rest(x))
+	} else {
+		g.line("if %s != %s {", a, b)
+		g.line("\treturn %s", rest(x))
+		g.line("}")
+		g.line("return %s", rest(lv[r.Intn(len(lv))]))
+	}
+}
+
 // flagReturns ends the function with several return sites selected by conditions on non-pointer values; some
 // branches use the returned value in a way that proves it non-nil before returning it, others return it untouched.
 func (g *nilGen) flagReturns() {
@@ -1013,7 +1068,9 @@ func GenNilModule(r *Rand, dir string, na, nb int) []GFunc {
 			for g.budget > 0 {
 				g.stmt(0)
 			}
-			if _, ok := g.pickVar(f.Results[0]); ok && r.Chance(35) {
+			if _, ok := g.pickVar(f.Results[0]); ok && comparableType(f.Results[0]) && r.Chance(30) {
+				g.cmpReturns()
+			} else if _, ok := g.pickVar(f.Results[0]); ok && r.Chance(35) {
 				g.flagReturns()
 			} else if r.Chance(25) {
 				g.selfLoop()
